@@ -296,29 +296,52 @@ func c05Inner(c c05Case) (vk.Result, error) {
 			}
 		}
 	}
+	// Short messages of different writers can have equal content, so the assignment of reads to writers is
+	// searched (depth first) instead of chosen greedily: a violation is reported only if NO assignment exists in
+	// which every read is the next whole message of some writer.
+	var nonEmpty [][]byte
+	for _, g := range got {
+		if len(g) == 0 {
+			emptyGot++
+		} else {
+			nonEmpty = append(nonEmpty, g)
+		}
+	}
 	next := make([]int, len(c.Writers))
 	skip := func(w int) {
 		for next[w] < len(sent[w]) && sent[w][next[w]] == nil {
 			next[w]++
 		}
 	}
-	for i, g := range got {
-		if len(g) == 0 {
-			emptyGot++
-			continue
+	deepest := 0
+	steps := 0
+	var assign func(i int) bool
+	assign = func(i int) bool {
+		if i > deepest {
+			deepest = i
 		}
-		matched := false
+		if i == len(nonEmpty) {
+			return true
+		}
+		steps++
+		if steps > 2000000 {
+			return true // give up searching: inconclusive rather than an alarm
+		}
 		for w := range c.Writers {
+			save := next[w]
 			skip(w)
-			if next[w] < len(sent[w]) && bytes.Equal(sent[w][next[w]], g) {
+			if next[w] < len(sent[w]) && bytes.Equal(sent[w][next[w]], nonEmpty[i]) {
 				next[w]++
-				matched = true
-				break
+				if assign(i + 1) {
+					return true
+				}
 			}
+			next[w] = save
 		}
-		if !matched {
-			return res, vk.ViolateSig("framing", "read #%d returned %d bytes that are not the next whole message of any writer (split, merged, interleaved or altered)", i, len(g))
-		}
+		return false
+	}
+	if !assign(0) {
+		return res, vk.ViolateSig("framing", "read #%d returned %d bytes that are not the next whole message of any writer (split, merged, interleaved or altered)", deepest, len(nonEmpty[deepest]))
 	}
 	for w := range c.Writers {
 		skip(w)
